@@ -15,6 +15,7 @@ import (
 	"verifmc/internal/ops"
 	"verifmc/internal/vnode"
 	"verifmc/internal/xs"
+	"verifmc/props/c10"
 )
 
 // The four chain histories of C18. All are deterministic scripts over the mock genesis.
@@ -25,7 +26,9 @@ import (
 //	embedded sporks (accelerator spork activated), tokens of several owners, stakes, fusions, sentinels, accelerator
 //	         projects, > 300 momentums spread over several 1 h epochs (reward / pillar epoch histories)
 //	long     1100 momentums (more than one full page of RpcMaxPageSize), thorough: > RpcMaxPageSize accelerator projects
-var chainNames = []string{"empty", "ledger", "embedded", "long"}
+//	bridge   bridge-and-liquidity spork active (administrator prefix of C10's bridge family), more wrap and unwrap requests
+//	         than RpcMaxPageSize to several destinations / recipients (some redeemed, one revoked), liquidity stakes
+var chainNames = []string{"empty", "ledger", "embedded", "long", "bridge"}
 
 type builder struct {
 	n    *vnode.Node
@@ -101,6 +104,8 @@ func buildChain(c *xs.Ctx, name string) *vnode.Node {
 		buildEmbedded(c, b)
 	case "long":
 		buildLong(c, b)
+	case "bridge":
+		buildBridge(c, b)
 	default:
 		panic("unknown chain " + name)
 	}
@@ -315,5 +320,80 @@ func buildLong(c *xs.Ctx, b *builder) {
 	}
 	for b.n.Height() < 1100 {
 		b.M(0)
+	}
+}
+
+// bridge chain: destinations of wrap requests and (tx hash, log index) of unwrap request i
+var bridgeDests = []string{c10.BridgeEvmDest, "0x00000000000000000000000000000000000c1801", "0x00000000000000000000000000000000000c1802"}
+
+func bridgeUnwrapID(i int) (types.Hash, uint32) {
+	var h types.Hash
+	h[0] = 0xc1
+	h[1] = 0x18
+	h[30] = byte(i >> 8)
+	h[31] = byte(i)
+	return h, uint32(i % 7)
+}
+
+const nBridgeRequests = 1030 // more than RpcMaxPageSize
+
+func buildBridge(c *xs.Ctx, b *builder) {
+	c10.Setup()
+	b.M(0)
+	if out := c10.BridgeSetup(b.n); out != "ok" {
+		b.fail("bridge set-up", out)
+	}
+	users := []types.Address{u1, u2, u3, u4}
+	ok := func(what, out string) {
+		if out != "ok" {
+			b.fail(what, out)
+		}
+	}
+	for i := 0; i < nBridgeRequests; i++ {
+		ok("wrap", c10.SubmitWrap(b.n, users[i%len(users)], int64(100+i%13), bridgeDests[(i/3)%len(bridgeDests)]))
+		tx, log := bridgeUnwrapID(i)
+		ok("unwrap", c10.SubmitUnwrap(b.n, users[(i+1)%len(users)], tx, log, users[(i/5)%len(users)], int64(1+i%9)))
+		if i%40 == 39 {
+			b.Ms(2)
+		}
+	}
+	b.Ms(4)
+	// some requests redeemed (past the redeem delay of the pair), one revoked, the rest pending
+	for _, i := range []int{0, 1, 7, 500} {
+		tx, log := bridgeUnwrapID(i)
+		ok("redeem", c10.SubmitRedeem(b.n, u3, tx, log))
+	}
+	tx, log := bridgeUnwrapID(2)
+	ok("revoke", c10.SubmitRevokeUnwrap(b.n, tx, log))
+	b.Ms(2)
+	// liquidity stakes: several per user with different durations (expiration order differs from creation order), two
+	// with the same duration in one momentum (tie on the expiration time)
+	for _, st := range []struct {
+		a     types.Address
+		zts   types.ZenonTokenStandard
+		v     int64
+		units int
+	}{{u1, types.ZnnTokenStandard, 5000, 6}, {u1, types.QsrTokenStandard, 700, 2}, {u2, types.ZnnTokenStandard, 1000, 3}} {
+		ok("liquidity stake", c10.SubmitLiquidityStake(b.n, st.a, st.zts, st.v, st.units))
+	}
+	b.Ms(2)
+	ok("liquidity stake", c10.SubmitLiquidityStake(b.n, u1, types.ZnnTokenStandard, 1500, 4))
+	ok("liquidity stake", c10.SubmitLiquidityStake(b.n, u1, types.QsrTokenStandard, 1600, 4))
+	ok("liquidity stake", c10.SubmitLiquidityStake(b.n, u3, types.QsrTokenStandard, 10, 1))
+	b.Ms(3)
+	for _, u := range users {
+		b.receiveAll(u)
+	}
+	b.Ms(2)
+	// the chain must hold what it is meant to hold, otherwise the lists below are vacuous
+	bst := b.n.Chain.GetFrontierAccountStore(types.BridgeContract).Storage()
+	if w, err := definition.GetWrapTokenRequests(bst); err != nil || len(w) != nBridgeRequests+1 {
+		b.fail("bridge chain", fmt.Sprintf("%d wrap requests (%v)", len(w), err))
+	}
+	if u, err := definition.GetUnwrapTokenRequests(bst); err != nil || len(u) != nBridgeRequests {
+		b.fail("bridge chain", fmt.Sprintf("%d unwrap requests (%v)", len(u), err))
+	}
+	if l, _, _, err := definition.GetLiquidityStakeListByAddress(b.n.Chain.GetFrontierAccountStore(types.LiquidityContract).Storage(), u1); err != nil || len(l) != 4 {
+		b.fail("bridge chain", fmt.Sprintf("%d liquidity stakes of user 1 (%v)", len(l), err))
 	}
 }
